@@ -89,6 +89,24 @@ CHECKS = {
              'a sacrificial tree with mutations outside it vetoed; reads '
              'under interpreter/library prefixes are not judged; symlink '
              'attacks by a local user and redis are out of scope'),
+    'C07': dict(
+        category='exploration', design='4/C07',
+        technique='runtime monitor: independent strict RFC 3501 response '
+                  'parser (vf/grammar.py) applied online to every byte the '
+                  'server writes while echo channels are driven with hostile '
+                  'client data',
+        text='Hostile mailbox names (any Unicode, quotes, backslashes, '
+             'control characters incl. CR/LF/NUL), keywords, APPEND dates, '
+             'header values (bare CR, 8-bit, long, encoded words), MIME '
+             'parameter values and nesting shapes, tags, SASL and ID strings '
+             'are sent on dict and maildir(++/fs); every response line is '
+             'framed and parsed by a parser that shares no code with pymap: '
+             'CRLF termination, literal counts, quoted-string alphabet, '
+             'balanced lists, typed shapes of LIST/STATUS/FETCH/ENVELOPE/'
+             'BODYSTRUCTURE/response codes.',
+        note='grammar = RFC 3501 section 9 + advertised extensions as '
+             'written in vf/grammar.py; the same parser also reads all server '
+             'output in every other check'),
 }
 
 NOT_YET = 'check not built yet in this round (see DESIGN.md section 4)'
